@@ -9,7 +9,7 @@ CFG = {
     {"variant": "bvh-c16", "id": "C16B", "share": 0.3},
 ],
 "engine": "enum",
-"level_text": "Octree: every multiset of 1..3 (thorough 1..4) points of the lattice {0,1,2}^3 as point clouds; every multiset of 1..2 (thorough 1..3) of the 120 triangles and of the 55 segments with corners in a ten-point corner set (all sizes, axis-aligned, degenerate and coincident ones included), every poly-line of 2..3 (thorough 2..4) of those corners through the mesh API, thorough also every pair of the 351 full-lattice segments and of 364 triangles over cube corners / centre / face centres, plus six sets of 23..54 elements (automatic depth 2); each indexed at depths 0, 1, 2 and automatic and asked every query of {-1,-0.5,..,3}^3 (closest, contain, radii 0,0.5,1,1.5,4) and 27x26 rays x ranges [0,inf),[0.5,2] (element list, traversal, traversal with a range-shortening callback). BVH: 1..5 lattice triangles (library Triangle elements and an exact reference Hittable), all input orders for <=3 elements, every sequence of the builder's axis draws, NewBVHTree and NewBVHFromMesh, the same 1404 rays; hit/no-hit and distance against the per-element minimum and HitList.Hit. Size ladder: point clouds and triangle soups of n = 2^k-1, 2^k, 2^k+1, 2^k+floor(2^k/3) elements for k = 2..10 (thorough 2..12) on a non-lattice low-discrepancy layout scaled into boxes of edge 0.1 and 10 (thorough also 1), indexed at automatic depth and depths 0..4 and asked 128 points (closest, contain, three radii) and 96 rays x 2 ranges (element list and traversal) against the brute-force scan with two-sided margins; triangle soups of the same sizes through NewBVHFromMesh under four axis scripts against HitList.Hit and the per-element minimum.",
+"level_text": "Octree: every multiset of 1..3 (thorough 1..4) points of the lattice {0,1,2}^3 as point clouds; every multiset of 1..2 (thorough 1..3) of the 120 triangles and of the 55 segments with corners in a ten-point corner set (all sizes, axis-aligned, degenerate and coincident ones included), every poly-line of 2..3 (thorough 2..4) of those corners through the mesh API, thorough also every pair of the 351 full-lattice segments and of 364 triangles over cube corners / centre / face centres, plus six sets of 23..54 elements (automatic depth 2); each indexed at depths 0, 1, 2 and automatic and asked every query of {-1,-0.5,..,3}^3 (closest, contain, radii 0,0.5,1,1.5,4) and 27x44 rays (26 lattice directions plus the negative-zero twin of each of the 18 with a zero component) x ranges [0,inf),[0.5,2] (element list, traversal, traversal with a range-shortening callback). BVH: 1..5 lattice triangles (library Triangle elements and an exact reference Hittable), all input orders for <=3 elements, every sequence of the builder's axis draws, NewBVHTree and NewBVHFromMesh, the same 2376 rays; hit/no-hit and distance against the per-element minimum and HitList.Hit. Size ladder: point clouds and triangle soups of n = 2^k-1, 2^k, 2^k+1, 2^k+floor(2^k/3) elements for k = 2..10 (thorough 2..12) on a non-lattice low-discrepancy layout scaled into boxes of edge 0.1 and 10 (thorough also 1), indexed at automatic depth and depths 0..4 and asked 128 points (closest, contain, three radii) and 96 rays x 2 ranges (element list and traversal) against the brute-force scan with two-sided margins; triangle soups of the same sizes through NewBVHFromMesh under four axis scripts against HitList.Hit and the per-element minimum.",
 "level_note": "Trusted: the exact lattice geometry in harness/props/c16/oracle.go (closed boxes, Ericson point-triangle distance), the reference triangle Hittable, and the overlay seam that answers the builder's math/rand draws. Zero-length segments / zero-area triangles have no defined closest point (NaN) and are a reported-only sub-scope for the closest query; the empty set (nil index) is reported only. Identities are compared as sets; touching contacts accept either answer from the per-element predicate; equidistant elements accept either identity.",
 "rule": "every member of the stated families (size ladder included) is indexed at every depth and asked every query; a set is non-trivial when it has at least two elements; distinct by (kind, element list) for the octree and by (element kind, entry point, ordered triangle list, axis sequence) for the BVH",
 "assumptions": COMMON_ASSUME + [
